@@ -388,6 +388,40 @@ func init() {
 						}
 					}
 				}
+				// the last element carried through the loop: v := st.LastAssignedSplitID; for _, s := range
+				// shards { v = s.ShardID }; st.LastAssignedSplitID = v
+				if v := prog.IdentObjPlain(ti, as.Rhs[0]); v != nil {
+					initOK, loopOK, other := false, false, false
+					loops := fullLoopsOver(ti, ta.Decl.Body, func(e ast.Expr) bool { return r.isParam(ta, e, 0) })
+					ast.Inspect(ta.Decl.Body, func(m ast.Node) bool {
+						a2, isAs := m.(*ast.AssignStmt)
+						if !isAs || len(a2.Lhs) != 1 || len(a2.Rhs) != 1 || prog.IdentObjPlain(ti, a2.Lhs[0]) != v {
+							return true
+						}
+						switch {
+						case prog.SelField(ti, a2.Rhs[0]) == lastID:
+							initOK = true
+						default:
+							inLoop := false
+							for _, lp := range loops {
+								if a2.Pos() > lp.Body.Pos() && a2.End() < lp.Body.End() {
+									if s2, isSel := ast.Unparen(a2.Rhs[0]).(*ast.SelectorExpr); isSel && s2.Sel.Name == "ShardID" && lp.IsElem(s2.X) {
+										inLoop = true
+									}
+								}
+							}
+							if inLoop {
+								loopOK = true
+							} else {
+								other = true
+							}
+						}
+						return true
+					})
+					if initOK && loopOK && !other {
+						okAdv = true
+					}
+				}
 				return true
 			})
 			if !okAdv {
